@@ -2,7 +2,7 @@
 """Run every seeded change against the check of its own property (and any extra checks listed in EXTRA); write seeded/RESULTS.json."""
 import json, os, subprocess, sys
 V = '/verif'
-EXTRA = {'REVERT-C12c': ['C02'], 'C01-Q': ['C07'], 'C03-H': ['C05'], 'C20-H': ['C03'], 'C01-B': ['C08'], 'C03-A': ['C07'], 'C09-B': ['C07'], 'C13-B': ['C08'], 'C20-B': ['C08'], 'C17-A': ['C07', 'C09']}
+EXTRA = {'REVERT-C12c': ['C02'], 'C01-Q': ['C07'], 'C03-H': ['C05'], 'C20-H': ['C03'], 'C01-B': ['C08'], 'C03-A': ['C07'], 'C09-B': ['C07'], 'C13-B': ['C08'], 'C20-B': ['C08'], 'C17-A': ['C07', 'C09'], 'C14-U': ['C09'], 'C15-U': ['C09']}
 res = json.load(open(f'{V}/seeded/RESULTS.json')) if os.path.exists(f'{V}/seeded/RESULTS.json') and len(sys.argv) > 1 else {}
 ONLY = sys.argv[1].split(',') if len(sys.argv) > 1 else None
 for d in sorted(os.listdir(f'{V}/seeded')):
